@@ -60,6 +60,8 @@ def run(ctx):
         'D2 residuals are homogeneous of degree 0 in z (scale freedom)',
         'D3 single-component shortcut: T-methods return Tsat, P-methods return Psat',
         'D4 instance-cache key covers what __new__ reads',
+        'D6 the fallback brackets built in __new__: Tmin/Tmax are the two results of the domain function in order, Pmin = min_i Psat_i(Tmin), '
+        'Pmax = max_i Psat_i(Tmax) (vapour pressure increases with T, so any other pairing can exclude the root), identically in BubblePoint and DewPoint',
         'D5 with the caller\'s arguments substituted, the quantity each residual function hands to its inner composition solve is '
         'z*Psat*gamma*pcf/P (bubble; y = that / phi(y)) resp. z*P*phi/(Psat*pcf) (dew; x = that / gamma(x)): modified Raoult\'s law, nothing missing, nothing inverted',
     ]
@@ -110,6 +112,8 @@ def run(ctx):
         homogeneity(ctx, d2, prog, f, cname, mname, rel)
     d5 = ctx.rule('D5', 'the residual summand has the shape of modified Raoult\'s law', floor=10)
     raoult_shape(ctx, d5)
+    d6 = ctx.rule('D6', 'solver brackets: [Tmin, Tmax] from the domain, [Pmin, Pmax] = [min Psat(Tmin), max Psat(Tmax)]', floor=7)
+    bracket_rule(ctx, d6)
     # ---- D4
     for cname, rel in (('BubblePoint', BP), ('DewPoint', DP)):
         f = prog.method(cname, '__new__', rel=rel)
@@ -422,3 +426,61 @@ def raoult_shape(ctx, d5):
         d5.ok(it.qualname, 'gamma <- f_gamma(normalised %s, T, ...)' % ratio, it)
     else:
         d5.fail(it.qualname, 'inner-solve', 'the fixed-point map is not gamma <- f_gamma(%s): %s' % (ratio, [x.pretty() for x in r]), it, it.node)
+
+
+def bracket_rule(ctx, rule):
+    """A bracketing fallback finds the root only if the bracket contains it.  With Psat increasing in T the pressure bracket that
+    covers every state of the temperature domain is [min_i Psat_i(Tmin), max_i Psat_i(Tmax)]."""
+    prog = ctx.prog
+    shapes = {}
+    for cname, rel in (('BubblePoint', BP), ('DewPoint', DP)):
+        f = prog.method(cname, '__new__', rel=rel)
+        cons = '%s.__new__' % cname
+        dom = [n for n in walk_no_nested(f.node) if isinstance(n, ast.Assign) and isinstance(n.targets[0], ast.Tuple) and len(n.targets[0].elts) == 2
+               and isinstance(n.value, ast.Call) and all(isinstance(e, ast.Name) for e in n.targets[0].elts)]
+        if len(dom) != 1:
+            rule.fail(cons, 'domain', 'the temperature domain (lo, hi = f(chemicals)) was not found', f, f.node)
+            continue
+        lo, hi = [e.id for e in dom[0].targets[0].elts]
+        stores = {}
+        inst = {t.id for n in walk_no_nested(f.node) if isinstance(n, ast.Assign) and isinstance(n.value, ast.Call) and isinstance(n.value.func, ast.Attribute)
+                and n.value.func.attr == '__new__' for t in n.targets if isinstance(t, ast.Name)}
+        for n in walk_no_nested(f.node):
+            for t in (n.targets if isinstance(n, ast.Assign) else []):
+                if isinstance(t, ast.Attribute) and isinstance(t.value, ast.Name) and t.value.id in inst:
+                    stores[t.attr] = n
+        t_attrs = [a for a, n in stores.items() if isinstance(n.value, ast.Name) and n.value.id in (lo, hi) and len(n.targets) == 1]
+        tlo = [a for a in t_attrs if stores[a].value.id == lo]
+        thi = [a for a in t_attrs if stores[a].value.id == hi]
+        if len(tlo) == 1 and len(thi) == 1:
+            rule.ok(cons, 'self.%s, self.%s = lower, upper end of the domain' % (tlo[0], thi[0]), f, dom[0])
+        else:
+            rule.fail(cons, 'T-bracket', 'the two ends of the temperature domain are not stored as one lower and one upper bound', f, dom[0])
+            continue
+        # pressure bounds: reducer(<psat>(<T end>) for ...)
+        pb = {}
+        for a, n in stores.items():
+            v = n.value
+            if isinstance(v, ast.Call) and isinstance(v.func, ast.Name) and v.func.id in ('min', 'max') and v.args:
+                ends = {x.id for x in ast.walk(v.args[0]) if isinstance(x, ast.Name) and x.id in (lo, hi)}
+                pb[a] = (v.func.id, ends, n)
+        lows = [a for a, (r, ends, n) in pb.items() if r == 'min']
+        highs = [a for a, (r, ends, n) in pb.items() if r == 'max']
+        if len(lows) != 1 or len(highs) != 1:
+            rule.fail(cons, 'P-bracket', 'expected one min(...) and one max(...) pressure bound, found %s' % sorted(pb), f, f.node)
+            continue
+        for a, want, word in ((lows[0], lo, 'lower'), (highs[0], hi, 'upper')):
+            r, ends, n = pb[a]
+            if ends == {want}:
+                rule.ok(cons, 'self.%s = %s over the vapour pressures at the %s end of the temperature domain' % (a, r, word), f, n)
+            else:
+                rule.fail(cons, 'P-bracket-' + word, 'self.%s = %s(...) is evaluated at %s, not at the %s end of the temperature domain: the bracket [%s, %s] can exclude the root'
+                          % (a, r, sorted(ends), word, lows[0], highs[0]), f, n)
+        shapes[cname] = (tlo[0], thi[0], lows[0], highs[0])
+    if len(shapes) == 2:
+        a, b = shapes.values()
+        f = prog.method('DewPoint', '__new__', rel=DP)
+        if a == b:
+            rule.ok('BubblePoint/DewPoint.__new__', 'both classes name and build their brackets identically %s' % (a,), f)
+        else:
+            rule.fail('BubblePoint/DewPoint.__new__', 'sibling-brackets', 'the two classes build different brackets: %s vs %s' % (a, b), f, f.node)
